@@ -62,6 +62,11 @@ Theorem C17_first_min_unique : forall t k k', first_min t k -> first_min t k' ->
 Proof. exact first_min_unique. Qed.
 Print Assumptions C17_first_min_unique.
 
+(* ... and so does "first maximum": highest_position is a function of the tuple, ties go to the earliest layer *)
+Theorem C17_first_max_unique : forall t k k', first_max t k -> first_max t k' -> k = k'.
+Proof. exact first_max_unique. Qed.
+Print Assumptions C17_first_max_unique.
+
 (* rank = the ref-th smallest layer value (1 <= ref <= number of layers): element ref-1 of the
    ascending permutation of the tuple *)
 Theorem C17_rank_is_ref_th_smallest : forall ref t,
